@@ -80,6 +80,7 @@ type SpecFile struct {
 	Imports  [][2]string // alias, path
 	Funcs    []*SpecFunc
 	Ghosts   [][2]string // name, type
+	Types    []string    // specification-only type declarations
 	Lemmas   []*Clause
 	Axioms   []*Clause
 	Contracts []*FuncContract
@@ -142,6 +143,8 @@ func parseSpecFile(path string) (*SpecFile, error) {
 		case "ghost":
 			a, t := splitWord(rest)
 			sf.Ghosts = append(sf.Ghosts, [2]string{a, strings.TrimSpace(t)})
+		case "type":
+			sf.Types = append(sf.Types, rest)
 		case "spec":
 			kind, r2 := splitWord(rest)
 			opaque := false
